@@ -53,6 +53,9 @@ def grid(gx, desc=False):
 def check_rebin(col, b, f, how, gdesc):
     want = [float(frac(x)) * UNU for x in b['R']]
     try:
+        if (b['fx'][0] + len(b['gx'])) % 2:
+            # the same Filter object is first re-binned onto another grid: a second re-binning must not depend on it
+            f.rebin(grid([g + 2 for g in b['gx']] + [b['gx'][-1] + 6], not gdesc))
         r = f.rebin(grid(b['gx'], gdesc))
         got = [float(x) for x in r.response]
     except Exception as e:
